@@ -381,7 +381,7 @@ def c10(r):
     for c in r.calls:
         if c['op'] == 'complete':
             f = int(c['arg'][0])
-            completed.setdefault(f, (c['arg'][1], int(c['arg'][2])) if c['arg'][1] not in ('killed', 'cancelled') else ('exc', 'KilledError'))
+            completed.setdefault(f, (c['arg'][1], {'E': pm.EXC_VALUE_CODE, 'U': pm.UNCOPYABLE_CODE}.get(c['arg'][2]) or int(c['arg'][2])) if c['arg'][1] not in ('killed', 'cancelled') else ('exc', 'KilledError'))
     fns = r.prog['fns']
     expect_ctx = {}
     for t in p._trace:
